@@ -43,7 +43,8 @@ type Conn struct {
 	wrExpired bool
 	rdArmed   bool
 	wrArmed   bool
-	Cap       int // capacity of the *peer's* inbox as seen by Write (0 = unbounded)
+	Cap       int  // capacity of the *peer's* inbox as seen by Write (0 = unbounded)
+	Coalesce  bool // bytes arriving at this end while earlier bytes are still unread join the last unread segment (the network merged them)
 	WriteErr  error
 	// recording
 	Log         [][]byte // every segment ever delivered into this end's inbox (what the peer wrote)
@@ -136,6 +137,13 @@ func (c *Conn) Write(b []byte) (int, error) {
 		return 0, opErr("write", syscall.EPIPE)
 	}
 	seg := append([]byte(nil), b...)
+	if p.Coalesce && len(p.inbox) > 0 {
+		p.inbox[len(p.inbox)-1] = append(p.inbox[len(p.inbox)-1], seg...)
+		p.inBytes += len(seg)
+		p.Log = append(p.Log, seg)
+		vsched.Release(p)
+		return len(b), nil
+	}
 	p.inbox = append(p.inbox, seg)
 	p.inBytes += len(seg)
 	p.Log = append(p.Log, seg)
